@@ -3,7 +3,10 @@ k_frame (B3, frame / allocation harnesses).  Used as the Kani step of the Verus-
 import importlib
 import k_short
 import k_frame
+import k_public
 
+ROOT_MODULES = {}
+FALLBACK_PUBLIC = True
 TRUSTED = sorted(set(k_short.TRUSTED + k_frame.TRUSTED))
 
 
@@ -12,7 +15,14 @@ def build(repo, features):
     importlib.reload(k_frame)
     t1, m1 = k_short.build(repo, features)
     t2, m2 = k_frame.build(repo, features)
-    metas = [m for m in m1 if m['name'].startswith('bridge_') or m['name'] == 'new_equals_default'] + m2
+    importlib.reload(k_public)
+    t3, m3 = k_public.build(repo, features)
+    ROOT_MODULES.clear()
+    ROOT_MODULES['verif_kani_pub'] = t3
+    metas = [m for m in m1 if m['name'].startswith('bridge_') or m['name'] == 'new_equals_default'] + m2 + m3
+    for m in metas:
+        if m['name'].startswith('bridge_') or m['name'] == 'new_equals_default':
+            m['public'] = True     # does not touch the private representation of the scanners
     return t1, metas
 
 
